@@ -49,6 +49,7 @@ META = {
 }
 
 K_ALG = 64.0
+TINY = {"float64": 2.2250738585072014e-308, "float32": 1.1754943508222875e-38}
 STD_G = 9.810070037841797      # float32(9.81007)
 DT_LADDER = [1e-4, 1e-3, 2e-3, 1e-2, 0.1, 0.5, 1.0]
 
@@ -535,10 +536,12 @@ def tolerances(case, D, b, starts):
         for f in range(s, s + n):
             k, sv, sp, th = sc.step(float(D["dt"][b, f, 0]), D["gyro"][b, f].double(), D["acc"][b, f].double())
             c = K_ALG * eps * (k + 2) * (1 + th)
+            floor = (k + 2) * TINY[case["dtype"]]        # underflow floor of the dtype (results below the normal range)
             tr.append(c)
-            tv.append(c * max(sv, 1e-300))
-            tp.append(c * max(sp, 1e-300))
-        out.append((torch.tensor(tr), torch.tensor(tv), torch.tensor(tp)))
+            tv.append(c * sv + floor)
+            tp.append(c * sp + floor)
+        out.append((torch.tensor(tr, dtype=torch.float64), torch.tensor(tv, dtype=torch.float64),
+                    torch.tensor(tp, dtype=torch.float64)))
         s += n
     return out
 
@@ -769,10 +772,10 @@ def oracle_items(ctx, case, D, impl_calls):
                 err = float((xb - yb).abs().max()) if key != "rot" else float(qdist(xb, yb).max())
                 if key == "cov":
                     err, scale = cov_err(xb, yb), 1.0
-                if not err <= 64 * eps * max(scale, 1e-300):
+                if not err <= 64 * eps * scale + 8 * TINY[case['dtype']]:
                     ctx.fail({**strip(case), "oracle": "items", "item": b},
                              f"items: item {b} of the batched call differs from the call on that item alone in '{key}' "
-                             f"(call {ci}): {err:.3e} > {64 * eps * max(scale, 1e-300):.3e} (batch regimes {case.get('item_modes')})")
+                             f"(call {ci}): {err:.3e} > {64 * eps * scale + 8 * TINY[case['dtype']]:.3e} (batch regimes {case.get('item_modes')})")
                     ok = False
                     break
             if not ok:
@@ -949,11 +952,12 @@ def run_integrate(ctx: Ctx, cases):
         c = K_ALG * eps * k * (1 + th)
         sv = torch.cumsum(am * dt, 0)
         sp = torch.cumsum(torch.cat([torch.zeros(1, dtype=torch.float64), sv[:-1]]) * dt + 0.5 * am * dt * dt, 0)
+        fl = k * TINY[c1["dtype"]]
         blocks = [("Dr", qdist(got["Dr"][b], vals[:, 0:4]), c),
-                  ("Dv", (got["Dv"][b] - vals[:, 4:7]).norm(dim=-1), c * sv.clamp_min(1e-300)),
-                  ("Dp", (got["Dp"][b] - vals[:, 7:10]).norm(dim=-1), c * sp.clamp_min(1e-300)),
+                  ("Dv", (got["Dv"][b] - vals[:, 4:7]).norm(dim=-1), c * sv + fl),
+                  ("Dp", (got["Dp"][b] - vals[:, 7:10]).norm(dim=-1), c * sp + fl),
                   ("Dt", (got["Dt"][b, :, 0] - vals[:, 10]).abs(), K_ALG * eps * k * torch.cumsum(dt, 0)),
-                  ("a", (got["a"][b] - vals[:, 11:14]).norm(dim=-1), c * am.clamp_min(1e-300))]
+                  ("a", (got["a"][b] - vals[:, 11:14]).norm(dim=-1), c * am + fl)]
         for name, e, t in blocks:
             bad = ~(e <= t)
             if bool(bad.any()):
